@@ -8,6 +8,8 @@ CONSTANTS
   DelAmts = {1000}
   MinSelf = 100
   MinSpec = 1000
+  MinSpecHigh = 2000
+  HighChains = {"c2"}
   Fixed = TRUE
   MaxOps = 5
   GenHist = FALSE
